@@ -20,7 +20,8 @@ structure Edge where
   deriving Repr, DecidableEq
 
 inductive CheckErr
-  | noOrigin | noChannels | noFrames | channelNotRegistered | fileIdMismatch | foreignReference | sharedSet
+  | noOrigin | noChannels | noFrames | channelNotRegistered | channelFrameCount | fileIdMismatch | foreignReference
+  | sharedSet
   deriving Repr, DecidableEq
 
 /-- `EFLRSetsDict.get_all_items_for_set_type` on the registry of a logical file: the objects of every set of that
@@ -47,6 +48,18 @@ def checkFrameChannels (w : World) (lf chanK frameK : Nat) (es : List Edge) : Ex
       || (inLf w lf e.target && decide ((w.items[e.target]?.map (·.kind)) = some chanK)))
   then .ok () else .error .channelNotRegistered
 
+/-- how often the object with index `i` is listed by the CHANNELS of the frames of the logical file (`counts[ch] += 1`) -/
+def channelUses (w : World) (lf frameK : Nat) (es : List Edge) (i : Nat) : Nat :=
+  (es.filter fun e => e.viaChannels && e.target == i && inLf w lf e.holder &&
+      decide ((w.items[e.holder]?.map (·.kind)) = some frameK)).length
+
+/-- second half of `_check_channels_assigned_to_frames`: a channel of the logical file listed by no frame or by several
+is reported through `raise_or_warn` — refused in high-compatibility mode, a warning otherwise -/
+def checkChannelCounts (hc : Bool) (w : World) (lf chanK frameK : Nat) (es : List Edge) : Except CheckErr Unit :=
+  if !hc || (List.range w.items.length).all (fun i =>
+      !(inLf w lf i && decide ((w.items[i]?.map (·.kind)) = some chanK)) || channelUses w lf frameK es i == 1)
+  then .ok () else .error .channelFrameCount
+
 /-- `_check_references`: `id(v.parent) in own_sets` for every object `v` held by an object of a set of the logical file -/
 def checkReferences (w : World) (lf : Nat) (es : List Edge) : Except CheckErr Unit :=
   if es.all (fun e => !(inLf w lf e.holder) || inLf w lf e.target) then .ok () else .error .foreignReference
@@ -56,6 +69,29 @@ def checkObjects (w : World) (lf chanK frameK : Nat) (es : List Edge) (fileIdOk 
   checkFrameChannels w lf chanK frameK es
   if fileIdOk lf then pure () else .error .fileIdMismatch
   checkReferences w lf es
+
+/-- `check_objects` in or outside high-compatibility mode: the channel counts come right after the registration of the
+frames' channels (both are `_check_channels_assigned_to_frames`) -/
+def checkObjectsHc (hc : Bool) (w : World) (lf chanK frameK : Nat) (es : List Edge) (fileIdOk : Nat → Bool) :
+    Except CheckErr Unit := do
+  checkCompleteness w lf chanK frameK
+  checkFrameChannels w lf chanK frameK es
+  checkChannelCounts hc w lf chanK frameK es
+  if fileIdOk lf then pure () else .error .fileIdMismatch
+  checkReferences w lf es
+
+def checkAllHc (hc : Bool) (w : World) (chanK frameK : Nat) (es : List Edge) (fileIdOk : Nat → Bool) :
+    List Nat → Except CheckErr Unit
+  | [] => .ok ()
+  | lf :: rest => do
+    checkObjectsHc hc w lf chanK frameK es fileIdOk
+    checkAllHc hc w chanK frameK es fileIdOk rest
+
+def acceptWriteHc (hc : Bool) (w : World) (chanK frameK : Nat) (es : List Edge) (fileIdOk : Nat → Bool) :
+    Except CheckErr Unit := do
+  checkAllHc hc w chanK frameK es fileIdOk (List.range w.keys.length)
+  if (List.range w.keys.length).all (fun lf => !(originsOfLf w lf).isEmpty) then pure () else .error .noOrigin
+  if sharedSet w then .error .sharedSet else pure ()
 
 def checkAll (w : World) (chanK frameK : Nat) (es : List Edge) (fileIdOk : Nat → Bool) : List Nat → Except CheckErr Unit
   | [] => .ok ()
